@@ -79,6 +79,31 @@ class FakeSock:
         pass
 
 
+class Clock:
+    """Stands in for the `time` module inside socketutils: the n-th call of time() jumps far ahead, so the
+    code's own deadline arithmetic (cur_timeout <= 0 -> Timeout) fires at a chosen loop iteration."""
+
+    def __init__(self, jump_at):
+        self.n, self.t, self.jump_at = 0, 1000.0, jump_at
+
+    def time(self):
+        self.n += 1
+        if self.jump_at is not None and self.n == self.jump_at:
+            self.t += 1e6
+        return self.t
+
+    def use(self):
+        from boltons import socketutils as su
+        su.time = self
+        return self
+
+    @staticmethod
+    def restore():
+        import time as real
+        from boltons import socketutils as su
+        su.time = real
+
+
 def exc(ex):
     n = core.exc_name(ex)
     return n
@@ -146,22 +171,30 @@ def recv_session(rng, maxlen):
         plan.append("T")
     recvsize = rng.choice([1, 2, 3, 4, None])
     to = rng.choice([None, 1000.0, "default"])
+    jump = rng.choice([None, None, rng.randint(1, 12)])
+    if jump is not None:
+        to = rng.choice([1000.0, "default"])
     fs = FakeSock(enc(stream), plan)
     kw = {} if recvsize is None else {"recvsize": recvsize}
-    bs = su.BufferedSocket(fs, timeout=None if to == "default" else 1000.0, **kw)
+    bs = su.BufferedSocket(fs, timeout=None if to is None else 1000.0, **kw)
     evs = []
-    for _ in range(rng.randint(1, 5)):
-        call = gen_call(rng, n)
-        for attempt in range(12):
-            r = run_call(bs, call, to)
-            try:
-                rb = dec(bs.getrecvbuffer())
-            except Exception:
-                rb = [-7]
-            evs.append({"call": call, "r": r, "rbuf": rb, "pos": fs.pos})
-            if r["e"] != "Timeout":
-                break
-    return {"kind": "recv", "stream": stream, "recvsize": recvsize or 0, "plan": [0 if p == "T" else p for p in plan], "ev": evs}
+    Clock(jump).use()
+    try:
+        for _ in range(rng.randint(1, 5)):
+            call = gen_call(rng, n)
+            for attempt in range(12):
+                r = run_call(bs, call, to)
+                try:
+                    rb = dec(bs.getrecvbuffer())
+                except Exception:
+                    rb = [-7]
+                evs.append({"call": call, "r": r, "rbuf": rb, "pos": fs.pos})
+                if r["e"] != "Timeout":
+                    break
+    finally:
+        Clock.restore()
+    return {"kind": "recv", "stream": stream, "recvsize": recvsize or 0, "plan": [0 if p == "T" else p for p in plan], "ev": evs,
+            "deadline_jump_at": jump or 0}
 
 
 def send_session(rng):
@@ -170,8 +203,10 @@ def send_session(rng):
     for _ in range(rng.randint(0, 8)):
         splan.append("T" if rng.random() < 0.25 else rng.randint(1, 4))
     fs = FakeSock(b"", (), splan)
-    bs = su.BufferedSocket(fs, timeout=rng.choice([None, 1000.0]))
+    jump = rng.choice([None, None, rng.randint(1, 10)])
+    bs = su.BufferedSocket(fs, timeout=1000.0 if jump else rng.choice([None, 1000.0]))
     evs = []
+    Clock(jump).use()
     for _ in range(rng.randint(1, 6)):
         c = rng.choice(["send", "send", "sendall", "buffer", "flush"])
         data = [] if c == "flush" else [rng.choice([A, 2, D1]) for _ in range(rng.randint(0, 5))]
@@ -196,7 +231,8 @@ def send_session(rng):
             first = False
             if r["e"] != "Timeout":
                 break
-    return {"kind": "send", "stream": [], "ev": evs}
+    Clock.restore()
+    return {"kind": "send", "stream": [], "ev": evs, "deadline_jump_at": jump or 0}
 
 
 def ns_session(rng):
